@@ -634,3 +634,12 @@ def construction_answer_installed(O):
 def variables_survive_faults(O):
     from . import C04
     C04.swap_restored(O, rep())
+
+
+@obligation("C01/parser-bits-entry", profiles=("dev",),
+            desc="parse_data_row on `bits(k, e)` with one header column (k = 1): the entry stored is a Bits entry - expanded at run "
+                 "time into one-bit values - never the bare expression")
+def parser_bits_entry(O):
+    from . import C12
+    R = rep()
+    C12.bits_entry_kept(O, dri.Rep(dict(R.facts), B.bits_scenarios(1, 7) + B.bits_scenarios(1, -2) + list(R.battery), R.judge))
